@@ -30,7 +30,7 @@ def preamble_len(ecc_bytes):
     return len(ecc_bytes) - len(E.body(ecc_bytes))
 
 
-def relocation(tool, params, files, rng_times, same_length, octx=None):
+def relocation(tool, params, files, rng_times, same_length, octx=None, wide=False):
     """generate from 'in' and from a moved, time-touched copy; same_length: the moved path and database name have the
     same string lengths as the original ones, so the comment preamble (which repeats argv) has the same length."""
     E.write_tree('in', files)
@@ -43,6 +43,10 @@ def relocation(tool, params, files, rng_times, same_length, octx=None):
         os.remove(os.path.join('in', '@mirror'))
     rc1, _ = E.generate(tool, 'in', 'ecc3.db', params + ['--ecc_algo', '3'])
     dst, db2 = ('mv', 'ecm3.db') if same_length else ('moved/else/where', 'ecc_moved.db')
+    if wide:
+        # the copy lives below folders whose names are outside latin-1 and hold the bytes of the entry marker as CHARACTERS (U+00FE
+        # U+00FF): the comment preamble repeats argv, the body must not care
+        dst, db2 = ('\u0430\u0440\u0445\u0438\u0432 \u65e5\u672c/' + '\u00fe\u00ff' * 5, 'ecc_moved.db')
     shutil.copytree('in', dst)
     for r, _, fs in os.walk(dst):
         for f in sorted(fs):
@@ -59,7 +63,7 @@ def relocation(tool, params, files, rng_times, same_length, octx=None):
     shift = preamble_len(b) - preamble_len(a)
     ra, rb = idx_records(ia), idx_records(ib)
     shift_only = len(ra) == len(rb) and len(ia) == len(ib) and all(x[0] == y[0] and y[1] - x[1] == shift for x, y in zip(ra, rb))
-    shutil.rmtree(dst)
+    shutil.rmtree(dst.split('/')[0])
     return {'rc': [str(rc1), str(rc2)], 'body_equal': rc1 == 0 and rc2 == 0 and E.body(a) == E.body(b) and len(E.body(a)) > 0,
             'idx_equal': ia == ib, 'idx_shift_only': shift_only and shift != 0, 'preamble_shift': shift}
 
@@ -254,13 +258,15 @@ def tool_level(ctx):
                     entry_order(ctx, case, 'original root', open('ecc3.db', 'rb').read(), files)
                     genbody(ctx, case, tool, params, open('ecc3.db', 'rb').read())
                     # relocation + touch: same-length paths (identical preamble length) and different-length paths
-                    for same in (True, False):
+                    for same, wide in ((True, False), (False, False), (False, True)):
+                        if wide and ti % 3 != 0:
+                            continue
                         shutil.rmtree('in')
-                        r = relocation(tool, params, files, times(rng.randrange(10 ** 6)), same, octx=(ctx, case))
+                        r = relocation(tool, params, files, times(rng.randrange(10 ** 6)), same, octx=(ctx, case), wide=wide)
                         ctx.evaluations += 1
-                        ctx.nontriv(key + ('moved', same))
+                        ctx.nontriv(key + ('moved', same, wide))
                         if not r['body_equal'] or not r['idx_equal']:
-                            ctx.fail(dict(case, what='relocation', same_length=same), r)
+                            ctx.fail(dict(case, what='relocation', same_length=same, wide=wide), r)
                         else:
                             ctx.traces += 1
                     if '@mirror' in files:      # the mirror tree exists for the relocation check only
@@ -317,7 +323,7 @@ def replay_case(ctx, case):
     files = {k: bytes.fromhex(v) for k, v in case['tree'].items()}
     with E.Scratch() as d:
         if case.get('what') == 'relocation':
-            r = relocation(tool, params, files, times(1), case['same_length'])
+            r = relocation(tool, params, files, times(1), case['same_length'], wide=case.get('wide', False))
             r['holds'] = r['body_equal'] and r['idx_equal']
             return r
         E.write_tree('in', files)
